@@ -1147,10 +1147,15 @@ Proof.
   destruct (existsb (eqb x) s); simpl; lia.
 Qed.
 
+Lemma interleave_fin_r_bounded {I} (fin : list I) : lin_bounded (m_interleave_fin_r fin) 1 0.
+Proof.
+  apply productive_bounded; [|reflexivity]. intros s x. simpl. destruct s; simpl; lia.
+Qed.
+
 (* stages whose demand does not depend on the items *)
 Definition regular (s : stage) : bool :=
   match s with
-  | SFilterMod _ _ | SFlatten | SUniquify | SGroup | STruthy => false
+  | SFilterMod _ _ | SFlatten | SUniquify | SGroup | STruthy | SUnionFinL _ | SFilterNotIn _ => false
   | SWindows k | SChunks k => negb (k =? 0)
   | SStride _ s => negb (s =? 0)
   | _ => true
@@ -1188,6 +1193,13 @@ Proof.
   - exists 1, 1. apply remove_at_bounded; exact d.
   - exists 1, 0. apply imap_bounded; exact d.
   - exists 1, 0. apply imap_bounded; exact d.
+  - exists 1, 0. apply imap_bounded; exact d.
+  - exists 1, 0. apply imap_bounded; exact d.
+  - exists 1, 0. apply imap_bounded; exact d.
+  - exists 1, 0. apply imap_bounded; exact d.
+  - exists 1, 0. apply imap_bounded; exact d.
+  - exists 1, 0. apply imap_bounded; exact d.
+  - exists 1, 0. apply interleave_fin_r_bounded.
 Qed.
 
 Lemma pipeline_linear s rest :
